@@ -1,7 +1,7 @@
 """C18 — plugin registry: every constructor shape yields rightly configured components.
 
 TLC design level : PluginRegistry.tla — Registry.New / NewFactory + the pluginconfig hooks as a small state
-                   machine (decode the holder, call the factory 1..3 times, the driver mutating the previous
+                   machine (decode the holder, call the factory 1..3 (thorough: 1..4) times, the driver mutating the previous
                    product's config in between; the USER'S MAP is state), checked for the complete space of
                    constructor shapes x requested forms x injected failures x nested plugin x map shape;
                    four negative controls must produce counterexamples.
@@ -33,7 +33,7 @@ MANIFEST = dict(
           "both map shapes, nested plugin / list->composite, product config mutated between calls, plus the real `rps` list/composite entries) "
           "and TLC validates each observed run against the invariants and the model's exact observable. This is the right level: the statement "
           "is a cross product over registration shapes and call histories, which the unit tests only sample on the first product."),
-    note=("Exhaustive over the stated finite space (calls <= 3, one nested level, one config layout); registration-time panics of malformed "
+    note=("Exhaustive over the stated finite space (calls <= 3, thorough 4; one nested level, one config layout); registration-time panics of malformed "
           "constructors (expect()) and concurrency of Registry.New are not covered. Trusted: the recording driver "
           "(harness/cmd/vdrive/plugreg.go), TLC."),
 )
@@ -79,7 +79,8 @@ def validate(v, obs_path, rows, workers=8):
 def run(tier, v):
     thorough = tier == "thorough"
     states = trans = 0
-    r = vlib.tlc("PluginRegistryMC", "PluginRegistry_exh.cfg", workers=8, heap="4g", deadlock=False, timeout=900,
+    sfx = "4" if thorough else ""     # thorough: factories are called up to 4 times
+    r = vlib.tlc("PluginRegistryMC", "PluginRegistry_exh%s.cfg" % sfx, workers=8, heap="4g", deadlock=False, timeout=900,
                  coverage=False)
     vlib.tlc_must_pass(r, "PluginRegistry_exh")
     states += r.distinct
@@ -88,7 +89,7 @@ def run(tier, v):
         vlib.tlc_must_fail(vlib.tlc("PluginRegistryMC", neg, workers=4, heap="2g", deadlock=False, timeout=600), neg)
     d = vlib.scratch()
     cases = os.path.join(d, "cases.ndjson")
-    g = vlib.tlc("PluginRegistryMC", "PluginRegistry_gen.cfg", workers=1, heap="2g", deadlock=False, timeout=600,
+    g = vlib.tlc("PluginRegistryMC", "PluginRegistry_gen%s.cfg" % sfx, workers=1, heap="2g", deadlock=False, timeout=600,
                  env={"VERIF_OUT": cases})
     if g.error or g.violation or not os.path.exists(cases):
         raise vlib.MachineryError("case generation failed\n%s" % g.out[-3000:])
@@ -110,7 +111,7 @@ def run(tier, v):
         "traces_validated_against_impl": len(rows),
         "samples": samples,
         "exhaustive": True, "evaluations": len(rows), "distinct_nontrivial": nontrivial,
-        "rule": "every valid combination of constructor shape x requested form x injected failure/position x calls 1..3 x nested plugin x "
+        "rule": "every valid combination of constructor shape x requested form x injected failure/position x calls 1..MaxCalls x nested plugin x "
                 "map shape x mutation (as defined by Valid in PluginRegistry.tla) is one case; distinct = distinct (case class, observable)",
         "real_registry_cases": len(real),
         "trace_spec_states": tr.distinct,
@@ -118,7 +119,7 @@ def run(tier, v):
         "invariants_on_observed_runs": INVS,
     }
     return "model_checking", cov, [
-        "finite case space: calls <= 3, one nested plugin level, config layout {A int, B string, C text-unmarshaler, S core.Schedule}",
+        "finite case space: calls <= %d," % (4 if thorough else 3) + " one nested plugin level, config layout {A int, B string, C text-unmarshaler, S core.Schedule}",
         "decode count observed through a TextUnmarshaler field, config identity through the pointer value (products kept alive)",
         "trusted: the recording driver (harness/cmd/vdrive/plugreg.go), TLC"]
 
